@@ -4,7 +4,7 @@
 From Coq Require Import ZArith List Bool Reals QArith Lia Lra.
 From Coquelicot Require Import Coquelicot.
 From CV Require Import Base.Num Base.RNum C06.RestraintModel C06.RestraintSched C06.RestraintTI C06.RestraintWork
-  C06.RestraintHist C06.RestraintProofs.
+  C06.RestraintHist C06.RestraintProofs C18.ValueModel C18.ValueProofs C06.RestraintManifold.
 Import ListNotations.
 
 (* ---- closed-form potentials (R instance of the model) ------------------------------------------ *)
@@ -29,6 +29,30 @@ Theorem C06_harmonic_nonperiodic : forall (k : R) (v : var) (x c : R),
    harm_dUdk Rops v x c = 1 / (2 * v_width v ^ 2) * (x - c) ^ 2)%R.
 Proof. exact harmonic_nonperiodic. Qed.
 Print Assumptions C06_harmonic_nonperiodic.
+
+(* Harmonic restraint on manifold-valued variables (squared distances of coq/C18/ValueModel.v, which C18 proves to be
+   metrics): the energy is k/(2 w^2) x the squared geodesic distance - the angle theta between unit vectors ... *)
+Theorem C06_harmonic_unit_vector : forall (k w : R) (a b : vec3), (w <> 0)%R -> is_unit a -> is_unit b ->
+  exists th : R, (0 <= th <= PI /\ cos th = v3dot Rops a b /\
+    harm_potential_d2 Rops k w (uv_dist2 Rops a b) = k / (2 * w ^ 2) * th ^ 2)%R.
+Proof. exact harm_unit_vector. Qed.
+Print Assumptions C06_harmonic_unit_vector.
+
+(* ... the angle omega in [0, pi/2] with cos omega = |q1.q2| between two orientations (half the rotation angle; q and -q
+   are the same orientation) ... *)
+Theorem C06_harmonic_quaternion : forall (k w : R) (a b : quat), (w <> 0)%R -> q_unit a -> q_unit b ->
+  exists om : R, (0 <= om <= PI / 2 /\ cos om = Rabs (qdot Rops a b) /\
+    harm_potential_d2 Rops k w (q_dist2 Rops PI a b) = k / (2 * w ^ 2) * om ^ 2)%R.
+Proof. exact harm_quaternion. Qed.
+Print Assumptions C06_harmonic_quaternion.
+
+(* ... and the Euclidean distance of 3-vectors *)
+Theorem C06_harmonic_vector3 : forall (k w : R) (a b : vec3), (w <> 0)%R ->
+  harm_potential_d2 Rops k w (v3_dist2 Rops a b) =
+  let '(ax, ay, az) := a in let '(bx, by_, bz) := b in
+  (k / (2 * w ^ 2) * ((ax - bx) ^ 2 + (ay - by_) ^ 2 + (az - bz) ^ 2))%R.
+Proof. exact harm_vector3. Qed.
+Print Assumptions C06_harmonic_vector3.
 
 Theorem C06_linear : forall (k : R) (v : var) (x c : R), (v_width v <> 0)%R ->
   (lin_potential Rops k v x c = k / v_width v * (x - c) /\ lin_force Rops k v = - (k / v_width v) /\
@@ -57,7 +81,7 @@ Print Assumptions C06_walls_nonperiodic.
    energy is the half-harmonic k*(lk|uk)/(2 w^2) d^2 in that distance, the force minus its derivative. *)
 Theorem C06_walls_closest : forall (k lk uk : R) (hl hu : bool) (v : var) (x L U : R),
   (v_width v <> 0)%R -> v_periodic v = true -> (0 < v_period v)%R -> (L < U)%R -> (U - L < v_period v)%R ->
-  let dL := pdiff Rops v x L in let dU := pdiff Rops v x U in
+  let dL := RestraintModel.pdiff Rops v x L in let dU := RestraintModel.pdiff Rops v x U in
   ((exists n : Z, (L <= x - IZR n * v_period v <= U)%R) ->
      (walls_potential Rops k lk uk hl hu v x L U = 0 /\ walls_force Rops k lk uk hl hu v x L U = 0)%R) /\
   ((~ exists n : Z, (L <= x - IZR n * v_period v <= U)%R) ->
@@ -176,7 +200,7 @@ Print Assumptions C06_acc_work_centers_is_sum.
 
 (* ... and the closest-image difference is the plain difference whenever the centre moves by less than half a period per step *)
 Theorem C06_acc_work_small_increment : forall (v : @var R) (a b : R), var_ok v ->
-  (v_periodic v = true -> (- v_period v / 2 <= a - b < v_period v / 2)%R) -> pdiff Rops v a b = (a - b)%R.
+  (v_periodic v = true -> (- v_period v / 2 <= a - b < v_period v / 2)%R) -> RestraintModel.pdiff Rops v a b = (a - b)%R.
 Proof. exact pdiff_small. Qed.
 Print Assumptions C06_acc_work_small_increment.
 
@@ -262,12 +286,16 @@ Example C06_example_ti :
 Proof. vm_compute. repeat split. Qed.
 
 (* periodic harmonic: x = 3.5, c = 0, P = 4: shortest image is -0.5 *)
-Example C06_example_periodic : pshift Rops 4%R (3.5 - 0)%R = 1%Z.
+Example C06_example_periodic : RestraintModel.pshift Rops 4%R (3.5 - 0)%R = 1%Z.
 Proof. unfold pshift, half, nhalf; cbn. apply Zfloor_spec. simpl. lra. Qed.
+
+(* unit vectors and unit quaternions exist: premises of the manifold theorems are satisfiable *)
+Example C06_example_manifold : is_unit (0, 1, 0)%R /\ is_unit (1, 0, 0)%R /\ q_unit (1, 0, 0, 0)%R /\ q_unit (0, 0, 1, 0)%R.
+Proof. unfold is_unit, q_unit, v3norm2, v3dot, qdot; cbn. repeat split; lra. Qed.
 
 (* periodic walls: period 4, walls 1 and 2, x = 3.75: outside, the upper wall is 1.75 away, the lower one 1.25 (through
    the boundary): premises of the "outside, lower wall closer" case are satisfiable *)
 Example C06_example_walls_closest :
   let v := mkVar 1%R true 4%R 0%R in
-  (pdiff Rops v 3.75 1 = -1.25 /\ pdiff Rops v 3.75 2 = 1.75 /\ ~ exists n : Z, 1 <= 3.75 - IZR n * 4 <= 2)%R.
+  (RestraintModel.pdiff Rops v 3.75 1 = -1.25 /\ RestraintModel.pdiff Rops v 3.75 2 = 1.75 /\ ~ exists n : Z, 1 <= 3.75 - IZR n * 4 <= 2)%R.
 Proof. exact example_walls_closest. Qed.
